@@ -29,12 +29,17 @@ NumLines == { L("k", K_2, 0, 0, 0), L("k", K_10, 0, 0, 0), L("k", K_10, 2, 1, 0)
               L("kv", K_a, 0, 0, 0), L("k", K_a, 0, 0, 0),
               L("blank", <<>>, 0, 0, 0) }
 
-MCLines == IF UseNum THEN NumLines ELSE LexLines
+CONSTANT Star   \* TRUE: the small alphabets for the regex whose group may be empty
+StarLexLines == { L("ide", <<>>, 0, 0, 0), L("ide", <<>>, 1, 0, 1), L("ide", K_a, 0, 0, 0), L("ide", K_b, 0, 0, 0),
+                  L("id", K_b, 0, 0, 0), L("k", K_a, 0, 0, 0), L("blank", <<>>, 0, 0, 0) }
+StarNumLines == { L("ide", <<>>, 0, 0, 0), L("ide", K_2, 0, 0, 0), L("ide", K_10, 0, 0, 1), L("ide", K_m3, 0, 0, 0),
+                  L("k", K_2, 0, 0, 0), L("blank", <<>>, 0, 0, 0) }
+MCLines == IF Star THEN (IF UseNum THEN StarNumLines ELSE StarLexLines) ELSE IF UseNum THEN NumLines ELSE LexLines
 
 C(dir, sp, pat, fmt) == [kind |-> "sorted", dir |-> dir, sp |-> sp, pat |-> pat, fmt |-> fmt,
                           lp |-> "any", op |-> "==", n |-> 0]
 \* sp = spelling of the direction attribute: "" | asc | ASC | desc | Desc
 MCConfigs == { C(d[1], d[2], p, IF UseNum THEN "num" ELSE "lex") :
                  d \in {<<"asc", "">>, <<"asc", "asc">>, <<"asc", "ASC">>, <<"desc", "desc">>, <<"desc", "Desc">>},
-                 p \in {"none", "group", "plain"} }
+                 p \in (IF Star THEN {"gstar"} ELSE {"none", "group", "plain"}) }
 =============================================================================
